@@ -14,11 +14,15 @@ XS = "http://www.w3.org/2001/XMLSchema"
 XSI = "http://www.w3.org/2001/XMLSchema-instance"
 U = 9
 BUILTIN = {"int", "string", "boolean", "decimal", "date"}
+# pseudo types of Schema.tla: a built-in type plus a value constraint on the element declaration
+VALUE_CONSTRAINED = {"FixedStr": ("string", ' fixed="kg"'), "DefInt": ("int", ' default="7"')}
 
 
 def _t(tp, tns):
     if tp in BUILTIN:
         return f"xs:{tp}"
+    if tp in VALUE_CONSTRAINED:
+        return f"xs:{VALUE_CONSTRAINED[tp][0]}"
     return f"t:{tp}" if tns != NONE else tp
 
 
@@ -40,7 +44,8 @@ def particle_xsd(p, tns, top=False) -> str:
             # an anonymous simple type given inline: a length-restricted anonymous list
             return (f'<xs:element name="{p["name"]}"{_occ(p)}{nil}><xs:simpleType><xs:restriction><xs:simpleType><xs:list itemType="xs:int"/></xs:simpleType>'
                     '<xs:maxLength value="3"/></xs:restriction></xs:simpleType></xs:element>')
-        return f'<xs:element name="{p["name"]}" type="{_t(p["tp"], tns)}"{_occ(p)}{nil}/>'
+        vc = VALUE_CONSTRAINED.get(p["tp"], ("", ""))[1]
+        return f'<xs:element name="{p["name"]}" type="{_t(p["tp"], tns)}"{_occ(p)}{nil}{vc}/>'
     tag = {"seq": "sequence", "choice": "choice", "all": "all"}[p["k"]]
     return f"<xs:{tag}{_occ(p)}>" + "".join(particle_xsd(i, tns) for i in p["items"]) + f"</xs:{tag}>"
 
@@ -124,7 +129,7 @@ def doc_xml(s, doc) -> str:
 def vs(tp: str, text: str):
     t = text.strip()
     try:
-        if tp == "int":
+        if tp in ("int", "DefInt"):
             return ("int", int(t))
         if tp == "boolean":
             return ("bool", t in ("true", "1"))
